@@ -206,6 +206,33 @@ void run_case(Choices &c, Ctx &ctx)
 			json_tokener_free(t);
 			ctx.fail("bad-depth-accepted", "json_tokener_new_ex(" + str(d) + ") returned a parser");
 		}
+		// the same through the descriptor entry point (-1 alone means "default depth")
+		int fd = memfd_create("c15r", 0);
+		if (fd >= 0)
+		{
+			if (write(fd, "[1]", 3) == 3)
+			{
+				int bd[] = {0, -2, -32, INT_MIN};
+				int dd = bd[c.pickn(4)];
+				lseek(fd, 0, SEEK_SET);
+				json_object *o = json_object_from_fd_ex(fd, dd);
+				if (o)
+				{
+					json_object_put(o);
+					close(fd);
+					ctx.fail("bad-depth-accepted", "json_object_from_fd_ex(fd, " + str(dd) + ") returned a document");
+				}
+				lseek(fd, 0, SEEK_SET);
+				o = json_object_from_fd_ex(fd, -1);
+				if (!o)
+				{
+					close(fd);
+					ctx.fail("default-depth-refused", "json_object_from_fd_ex(fd, -1) refused a flat document");
+				}
+				json_object_put(o);
+			}
+			close(fd);
+		}
 		ctx.label("refused_depth");
 	}
 	int D;
